@@ -300,6 +300,8 @@ def _isinst(it, x, c):
                 (c.name in ('sps.spmatrix', 'sps.sparray') or c.name.endswith(x.fields.get('sparse_format', '?') + '_matrix') or c.name.endswith(x.fields.get('sparse_format', '?') + '_array'))
         return tn == c.name
     if isinstance(c, I.Builtin):
+        if c.name.startswith('sps.'):
+            return isinstance(x, Obj) and x.fields.get('sparse_format') is not None and c.name[4:].split('_')[0] == x.fields['sparse_format']
         return tn == c.name
     raise Unsupported(f'isinstance against {c!r}')
 
